@@ -27,7 +27,29 @@ ATHERIS = True  # thorough tier: 4 of the 16 shards are coverage-guided (vlib/fu
 BUDGET = {"quick": {"shards": 8, "seconds": 40}, "thorough": {"shards": 16, "seconds": 420}}
 
 
+def _flat_selection(case: Dict[str, Any]) -> CaseResult:
+    """Flags next to executor selections: a call-only program with activation flags, run through
+    executor(target / exclude / root) selections - a selection may cut the flag's producer away, the flag then reads
+    as None and the flagged node is skipped.  Same engine and oracle as C03 (entries and values against the reference
+    evaluation of the selection)."""
+    from . import c03
+
+    inner = c03.run_case(case["inner"])
+    res = CaseResult()
+    res.evals = inner.evals
+    for v in inner.violations:
+        res.viol("selection-" + v.bucket, v.msg, v.key, v.detail)
+    flagged = any(s.get("active") is not None for s in case["inner"]["prog"]["body"])
+    res.nontrivial = bool(inner.nontrivial and flagged)
+    res.cls("flat-program-with-selections")
+    if flagged:
+        res.cls("flat-flagged")
+    return res
+
+
 def run_case(case: Dict[str, Any]) -> CaseResult:
+    if case.get("family") == "flat-sel":
+        return _flat_selection(case)
     res = CaseResult()
     P = case["prog"]
     res.evals = 0
@@ -77,8 +99,26 @@ def cases(draw: Any, tier: str) -> Dict[str, Any]:
     return c
 
 
+@st.composite
+def _flat_sel_cases(draw: Any, tier: str) -> Dict[str, Any]:
+    from .. import gen, schedchecks as sc
+
+    P = draw(gen.flat_prog(min_sites=3, max_sites=8, max_deps=3, resources=gen.RES, prio_range=(-2, 3),
+                           dep_kinds=("pos", "kw", "flag"), mark_roots=False, split_rate=0.25))
+    for s in P["body"]:
+        a = s.get("active")
+        if a is not None and a[0] == "v":
+            f = P["fns"][[x for x in P["body"] if x["out"] == a[1]][0]["fn"]]
+            if not f.get("setup") and f.get("kind") not in ("tup", "dict") and not f.get("pair"):
+                f["kind"], f["val"] = "const", draw(st.sampled_from([0, 1, "", "x", None, True, False]))
+    calls = []
+    for _ in range(draw(st.integers(1, 2))):
+        calls.append({"mode": "free", "sleeps": {}, "sel": draw(sc.selection_strategy(P)), "debug": False})
+    return {"family": "flat-sel", "inner": {"prog": P, "mc": draw(st.integers(1, 3)), "async": draw(st.booleans()), "calls": calls}}
+
+
 def strategy(tier: str) -> Any:
-    return cases(tier)
+    return st.one_of(cases(tier), cases(tier), cases(tier), cases(tier), cases(tier), _flat_sel_cases(tier))
 
 
 def run_shard(H: Harness) -> None:
